@@ -167,6 +167,11 @@ structure DIter where
   limit : Nat
   lastBatch : Bool := false
   off : Dlg := Dlg.zero
+  /-- peers whose user/chat/channel object is missing from the answers' entity maps: no input peer can
+  be built for them (`entities.ExtractPeer` fails) -/
+  noEntity : List Nat := []
+  /-- `lastErr`: `apply` returned "get offset peer: …" -/
+  err : Bool := false
   deriving Repr, DecidableEq
 
 def DIter.init (limit : Nat) : DIter := { limit := limit }
@@ -175,21 +180,28 @@ def dlbCode : Kind → Nat
   | .full => Facts.C39.dlgLastBatchFull
   | _ => Facts.C39.dlgLastBatchSlice
 
-/-- `dialogs.Iterator.apply`: the buffer is the page as sent; the offsets move to the last dialog
-(top message id/date, peer) unless this was the last batch. -/
+/-- `dialogs.Iterator.apply`: the buffer is the page as sent; unless this was the last batch the offsets
+move to the last dialog (top message id/date, and its input peer **built from the page's entities**): if
+that peer cannot be built, `apply` fails ("get offset peer") and the iteration stops with an error —
+it must not continue from a wrong offset. -/
 def DIter.apply (s : DIter) (k : Kind) (ds : List Dlg) : DIter :=
   if s.lastBatch then s
   else
     let lb := lbRule (dlbCode k) ds.length s.limit
     match ds.getLast? with
     | some d => if lb then { s with lastBatch := lb, buf := ds, pos := 0 }
-                else { s with lastBatch := lb, buf := ds, pos := 0, off := d }
+                else if Facts.C39.dlgOffsetPeerFromEntities && s.noEntity.contains d.peer then
+                  { s with lastBatch := lb, buf := ds, pos := 0, err := true }
+                else { s with lastBatch := lb, buf := ds, pos := 0,
+                              off := if s.noEntity.contains d.peer then { d with peer := 0 } else d }
     | none => { s with lastBatch := lb, buf := [], pos := 0 }
 
 structure DOut where
   yields : List Dlg := []
   reqs : List (Dlg × Nat) := []
   done : Bool := false
+  /-- the iteration ended with `Err() != nil` -/
+  err : Bool := false
   deriving Repr, DecidableEq
 
 def dbufHas (s : DIter) : Bool :=
@@ -212,9 +224,10 @@ def drunS (srv : DServer) : Nat → Nat → DIter → DOut
       let a := srv i s.off s.limit
       let s' := s.apply a.1 a.2
       let r := (s.off, s.limit)
-      if dbufHas s' then
+      if s'.err then { yields := [], reqs := [r], done := true, err := true }
+      else if dbufHas s' then
         let o := drunS srv fuel (i + 1) { s' with pos := s'.pos + 1 }
-        { yields := s'.buf.getD s'.pos Dlg.zero :: o.yields, reqs := r :: o.reqs, done := o.done }
+        { yields := s'.buf.getD s'.pos Dlg.zero :: o.yields, reqs := r :: o.reqs, done := o.done, err := o.err }
       else { yields := [], reqs := [r], done := true }
 
 /-- The dialog server; `cap` = server-side page cap (Telegram silently clamps `limit`): a page holds
